@@ -39,6 +39,8 @@ def configs(tier, seed):
     for pair, dw, al in [((2, 2), 8, 0), ((9, 3), 8, 1), ((1, 17), 16, 0)]:
         cfgs.append({"behind_decoder": list(pair), "dw": dw, "align": al, "n": sum(pair), "modes": []})
         cfgs.append({"behind_decoder": list(pair), "dw": dw, "align": al, "n": sum(pair), "modes": [], "descending": True})
+    cfgs.append({"behind_decoder": [3, 0], "dw": 8, "align": 0, "n": 3, "modes": [], "odd": 3})
+    cfgs.append({"behind_decoder": [9, 0], "dw": 8, "align": 1, "n": 9, "modes": [], "odd": 5})
     # padded register sizes that are not a power of two (5 or 6 words padded to 6; 9..11 padded to 10 / 12): the last data words
     # of `enable` share their shadow chunk with alignment padding of `pending`
     for n, dw, al in [(40, 8, 1), (33, 8, 1)] + ([] if tier == "quick" else [(40, 16, 1), (41, 8, 1), (35, 8, 1)]):
@@ -78,6 +80,11 @@ def check_config(ctx, cfg):
         # atomic snapshots) at the decoder's bus
         from .C01 import check_csr
         n1, n2 = cfg["behind_decoder"]
+        if cfg.get("odd"):
+            # an ODD number of subordinates (3, 5) with the monitor added last / in the middle
+            kids = [{"node": {"t": "bridge", "aw": 2, "regs": [[cfg["dw"], "rw", None]]}, "name": f"p{i}", "addr": None} for i in range(cfg["odd"] - 1)]
+            kids.insert(cfg["odd"] - 1 if cfg["odd"] == 3 else 2, {"node": {"t": "evmon", "n": n1, "align": cfg["align"]}, "name": "mon", "addr": None})
+            return check_csr(ctx, {"dw": cfg["dw"], "root": {"t": "dec", "aw": 7, "align": 0, "children": kids}})
         return check_csr(ctx, {"dw": cfg["dw"], "root": {"t": "dec", "aw": 6, "align": 0, "children": [
             {"node": {"t": "evmon", "n": n1, "align": cfg["align"]}, "name": "a", "addr": 0x20 if cfg.get("descending") else None},
             {"node": {"t": "evmon", "n": n2, "align": cfg["align"]}, "name": "b", "addr": 0x00 if cfg.get("descending") else None}]}})
